@@ -10,7 +10,7 @@ class Prop:
     PROPS_FILE = 'props/C06.v'
     SUITES = [HandlerSuite(), InvalidationSuite(), FeedSuite(), CrashFeedSuite(),
               NodeSuite(evals={'mismatches': 'mismatches', 'spec_violations': 'spec_violations_c06n'},
-                        quick=(500, 60), thorough=(8000, 300))]
+                        quick=(500, 60), thorough=(3000, 150))]
     RULE = ('failurehandler: random sequences (<= 30 quick / <= 120 thorough operations) of add_job / add_default_job / '
             'trigger_jobs / abort on the real RunningFailureHandler over 1-3 real applications x 1-5 real processes '
             'with mixed running failure strategies and start sequences (bursts of default jobs = an instance lost, '
